@@ -140,7 +140,11 @@ func (r *Run) oracleWrites(w *World, res *OpResult, kind string) {
 				r.Violate("wrote-foreign-path", "Repair wrote %s which is not a protected file", a.Resolved)
 				continue
 			}
-			if a.Fault == 0 && string(a.Data) != string(w.Files[fi].Data) {
+			older, hasOlder := w.OlderGen[a.Resolved]
+			// (the bytes an older generation of the set protected are exact
+			// originals too)
+			olderBytes := hasOlder && string(a.Data) == string(older)
+			if a.Fault == 0 && string(a.Data) != string(w.Files[fi].Data) && !olderBytes {
 				r.Violate("wrote-non-original", "Repair wrote %d bytes to %q that differ from the protected %d bytes", len(a.Data), w.Files[fi].Name, len(w.Files[fi].Data))
 			}
 			if a.Err == "" && !listed[a.Resolved] {
@@ -149,7 +153,7 @@ func (r *Run) oracleWrites(w *World, res *OpResult, kind string) {
 			// intact protected files belong to "every other file": Repair
 			// has no business writing them at all (an interrupted rewrite
 			// would destroy a healthy file)
-			if prev, ok := res.Before[a.Resolved]; ok && string(prev) == string(w.Files[fi].Data) {
+			if prev, ok := res.Before[a.Resolved]; ok && string(prev) == string(w.Files[fi].Data) && !olderBytes {
 				r.Violate("rewrote-intact-file", "Repair wrote %q although it was intact before the call", w.Files[fi].Name)
 			}
 		}
